@@ -439,4 +439,15 @@ example :
      [[0, 0, 0, 3, 8, 49, 48, 46, 48, 46, 48, 46, 49, 0, 53, 213, 1, 2], [0, 0, 0, 1, 9, 9, 9, 9, 0, 80, 165, 7]]⟩ := by
   decide +kernel
 
+/-- **The adapter's real per-connection function** (`handleSocksConnection`, no session attached),
+every byte string, chunking and configuration: always closes; consumes an accepted negotiation
+exactly and answers it with a failure reply after the replies owed; rejects as `C20_adapter` says. -/
+theorem C20_adapter_connection (c : IPText) (cfg : AdCfg) (chunks : List Bytes) (tail : Tail) :
+    holdsAdConn cfg chunks.flatten (adConnection c cfg ⟨chunks, tail⟩).1
+      (chunks.flatten.length - (adConnection c cfg ⟨chunks, tail⟩).2.flat.length) true = true :=
+  adConn_holds c cfg chunks tail
+
+example : adConnection toyIP ⟨false, [], []⟩ ⟨[[5, 1, 0, 5, 1, 0, 1], [1, 2, 3, 4, 0, 80, 9]], .eof⟩ =
+    ([5, 0, 5, 1, 0, 1, 0, 0, 0, 0, 0, 0], ⟨[[9]], .eof⟩) := by decide
+
 end Tunnox.C20
